@@ -102,10 +102,14 @@ class Repo:
         self.absorbed = []
         self.new_functions = []
         self.unrolled = {}
+        self.partially_evaluated = {}
         self._inline_new_helpers()
         if not os.environ.get("VERIF_NO_INLINE"):
-            from .normalize import normalize_table_driven
+            from .normalize import normalize_table_driven, apply_synonyms
             self.unrolled = normalize_table_driven(self)
+            self.synonym_rewrites = apply_synonyms(self)
+            from .peval import partial_evaluate
+            self.partially_evaluated = partial_evaluate(self)
 
     def _inline_new_helpers(self):
         """functions that are not in the reviewed baseline table (helpers introduced by a later change) are analysed at
